@@ -161,6 +161,7 @@ func runWait(in waitIn) (out map[string]any) {
 	everEmpty := len(w.VerifPending()) == 0
 	opEvs := make([][][]int, 0, len(in.Ops))
 	explicitEnd := false
+	interleavedAll := [][]int{}
 	for _, op := range in.Ops {
 		switch anyStr(op[0]) {
 		case "u":
@@ -182,7 +183,8 @@ func runWait(in waitIn) (out map[string]any) {
 			// the deadline fires; while the Timeout events are being handed to a slow consumer (unbuffered channel), after
 			// the k-th of them, the runner receives a status update for object i.  Reported as two operations: the
 			// Timeout events, then the events of the update.
-			tev, uev := waitTimeoutWithUpdate(w, tc, rc, idx, anyInt(op[1]), in.id(anyInt(op[2])), op[3].([]any))
+			tev, uev, il := waitTimeoutWithUpdate(w, tc, rc, idx, anyInt(op[1]), in.id(anyInt(op[2])), op[3].([]any))
+			interleavedAll = append(interleavedAll, il...)
 			w.Cancel(tc)
 			explicitEnd = true
 			opEvs = append(opEvs, tev, uev)
@@ -227,7 +229,7 @@ func runWait(in waitIn) (out map[string]any) {
 			recon[i] = -1
 		}
 	}
-	out = map[string]any{"start": startEvs, "ops": opEvs, "recon": recon, "ended": e, "late": drain()}
+	out = map[string]any{"start": startEvs, "ops": opEvs, "recon": recon, "ended": e, "late": drain(), "interleaved": interleavedAll}
 	if in.Crd != nil {
 		out["resets"] = nResets
 	}
@@ -235,8 +237,9 @@ func runWait(in waitIn) (out map[string]any) {
 }
 
 func waitTimeoutWithUpdate(w *taskrunner.WaitTask, tc *taskrunner.TaskContext, rc *cache.ResourceCacheMap, idx map[object.ObjMetadata]int,
-	k int, id object.ObjMetadata, obs []any) (tev, uev [][]int) {
-	tev, uev = [][]int{}, [][]int{}
+	k int, id object.ObjMetadata, obs []any) (tev, uev [][]int, interleaved [][]int) {
+	tev, uev, interleaved = [][]int{}, [][]int{}, [][]int{}
+	var pendingU [][]int // update events not yet followed by a Timeout event
 	raw := make(chan event.Event)
 	tc2 := taskrunner.VerifWithEventChannel(tc, raw)
 	tdone := make(chan struct{})
@@ -268,6 +271,9 @@ func waitTimeoutWithUpdate(w *taskrunner.WaitTask, tc *taskrunner.TaskContext, r
 			}
 			code := waitEvCode[e.WaitEvent.Status]
 			if code == 3 {
+				// a Timeout event AFTER an event of the update: the update got through while the deadline's events were being sent
+				interleaved = append(interleaved, pendingU...)
+				pendingU = nil
 				tev = append(tev, []int{j, code})
 				nT++
 				if nT == k+1 && !launched {
@@ -275,6 +281,7 @@ func waitTimeoutWithUpdate(w *taskrunner.WaitTask, tc *taskrunner.TaskContext, r
 				}
 			} else {
 				uev = append(uev, []int{j, code})
+				pendingU = append(pendingU, []int{j, code})
 			}
 		case <-td:
 			td = nil
@@ -285,7 +292,7 @@ func waitTimeoutWithUpdate(w *taskrunner.WaitTask, tc *taskrunner.TaskContext, r
 			ud = nil
 		}
 	}
-	return tev, uev
+	return tev, uev, interleaved
 }
 
 func genObs(rng *proto.Rng, appliedUID string, appliedGen int) []any {
